@@ -251,6 +251,9 @@ impl Check for C05 {
         json!({"real": ["CaoLangAllocator (limit, threshold, accounting)", "collector", "strings / tables / hash map storage", "compiler", "VM"],
                "stub": ["host natives (simulated host)"]})
     }
+    fn asan_flavour_share(&self) -> bool {
+        true
+    }
     fn required_probes(&self, _tier: Tier) -> Vec<String> {
         vec![
             "fault:collections_natural".into(),
